@@ -371,7 +371,7 @@ func init() {
 			cs = append(cs, c)
 		}
 		outs := RunCases(env, cs)
-		rep.Rule = "the REAL gosk binary, one fresh process per case: (a) argument vectors of length 0-4 over {existing / missing / directory / below-a-file source, writable / missing-directory / directory / empty-name output, list-file and extra arguments, -d, empty source, pre-filled destination} with the exit status the contract names (16, 17, 0) and the exact image on success; " +
+		rep.Rule = "the REAL gosk binary, one fresh process per case: (a) argument vectors of length 0-4 over {existing / missing / directory / below-a-file source, writable / missing-directory / directory / empty-name output, list-file and extra arguments, -d, empty source, pre-filled destination, /dev/null, a symlink to /dev/null, a named pipe with a reader} with the exit status the contract names (16, 17, 0) and the exact image on success; " +
 			"(b) seeded programs (flat 16/32-bit, WCOFF) through the CLI versus the in-process API: identical bytes; (c) the same programs with ';' and '#' comments in UTF-8 and in Shift_JIS, including double-byte characters whose trail byte is 0x5c or 0x7c (ソ 表 能 十 予 ポ), half-width katakana and random lead/trail pairs, also at the very end of a line before LF and CRLF, versus the comment-free form; " +
 			"(d) failing runs (parse error, pass-2 template error, failure after a large image) into fresh and pre-filled destinations: afterwards the destination is its previous contents or empty, and parse failures print line:column; distinct = scenario cells"
 		rep.Extra["cli_processes"] = len(jobs)
